@@ -511,6 +511,11 @@ def run_cover(unit, scratch, uws, timeout, mem):
            '--object-bits', str(unit.get('_object_bits', unit.get('object_bits', 8)))] + unit.get('cbmc_flags', [])
     if uws:
         cmd += ['--unwindset', ','.join(uws)]
+    solver = os.environ.get('VERIF_SOLVER') or unit.get('solver')
+    if solver == 'kissat':
+        cmd += ['--external-sat-solver', 'kissat']
+    elif solver == 'cadical':
+        cmd += ['--sat-solver', 'cadical']
     cmd += ['--json-ui']
     outp = os.path.join(scratch, 'cover.json')
     rc, _, _ = run(cmd, scratch, timeout, mem_gb=mem, out=outp)
